@@ -257,6 +257,24 @@ fn check_size(id: u8, w: u32, h: u32, pixels: &[(u32, u32)], rng: &mut Rng, rep:
                         }
                     }
                 }
+                // a copy is equal, and from then on a page of its own (also when it was made over borrowed bytes)
+                for (label, q) in [("slice", &from_slice), ("vec", &from_vec)] {
+                    if let Some(q) = q {
+                        let mut copy = q.clone();
+                        if copy != *q || hash_of(&copy) != hash_of(q) {
+                            bad.push(format!("clone differs from the page it was made from ({})", label));
+                        }
+                        let (x, y) = touched[0];
+                        let was = copy.get_pixel(x, y);
+                        copy.set_pixel(x, y, !was);
+                        if q.as_bytes() != &bytes[..] || q.get_pixel(x, y) != was {
+                            bad.push(format!("changing a clone changed the page it was made from ({})", label));
+                        }
+                        if copy == *q {
+                            bad.push(format!("pages that differ in pixel ({},{}) compare equal ({})", x, y, label));
+                        }
+                    }
+                }
                 if blank && (p != fresh || hash_of(&p) != hash_of(&fresh)) {
                     bad.push("a page brought back to blank differs from a new page with the same id and size".into());
                 }
